@@ -35,7 +35,9 @@ Case genHistory(Choices &c, int tier, const char *prop, bool tokenEmphasis) {
     std::vector<int> codes;
     if (toGram(gd.raw, g) && classify(gd.raw, gd.strict).empty()) {
       std::vector<int> ml = minLen(g);
-      codes = toCodes(g, genInputIdx(c, g, ml, 8, c.chance(65) ? 0 : (c.flip() ? 1 : 2)));
+      // mostly short inputs; some of 20-30 tokens (ambiguity spanning many tokens, vectors indexed by distance grow)
+      int maxLen = c.chance(15) ? 30 : 8;
+      codes = toCodes(g, genInputIdx(c, g, ml, maxLen, c.chance(65) ? 0 : (c.flip() ? 1 : 2)));
     }
     if (c.chance(tokenEmphasis ? 45 : 12)) {
       // an undeclared code: between the smallest and the largest declared one, just outside, or far away
@@ -60,7 +62,13 @@ Case genHistory(Choices &c, int tier, const char *prop, bool tokenEmphasis) {
   for (int k = 0; k < nops; k++) {
     int s = c.upto(NSLOT - 1);
     Op op;
-    if (!alive[s]) { op.kind = "create"; op.a = {s}; alive[s] = true; cs.ops.push_back(op); continue; }
+    if (!alive[s]) {
+      op.kind = "create"; op.a = {s}; alive[s] = true; cs.ops.push_back(op);
+      // a quarter of the objects work with dynamic lookahead, some build all parses (the defaults are 1 and one parse)
+      if (c.chance(25)) { Op st; st.kind = "set"; st.a = {s, 0, 2}; cs.ops.push_back(st); }
+      if (c.chance(15)) { Op st; st.kind = "set"; st.a = {s, 1, 0}; cs.ops.push_back(st); }
+      continue;
+    }
     int what = c.upto(99);
     if (what < 42) { op.kind = "parse"; op.a = {s, c.upto(ni - 1), c.chance(tokenEmphasis ? 8 : 4) ? 3 : c.upto(2)}; }
     else if (what < 62) { op.kind = "define"; op.a = {s, c.upto(ng - 1)}; }
@@ -319,7 +327,7 @@ Case genC16(Choices &c, int tier) {
   if (c.chance(20)) {
     // a long input that makes the C++ containers (hash table, object stack, VLO) grow and chain segments
     cs.par["long"] = 1;
-    cs.par["longfam"] = c.upto(2);
+    cs.par["longfam"] = c.upto(3);
     cs.par["longlen"] = 2500 + c.upto(tier ? 30000 : 5000);
     cs.par["longla"] = c.upto(2);
     cs.par["longerr"] = c.chance(30);
@@ -378,9 +386,13 @@ std::vector<std::string> transcribe(const Case &cs, Binding *(*mk)(), long *cont
     static const char *fam[] = {
         "TERM;\nL : L 'a' # l (0 1)\n | 'a' # 0\n ;\n",
         "TERM;\nL : 'a' L # r (0 1)\n | 'a' # 0\n | error # e\n ;\n",
-        "TERM;\nE : E '+' T # plus (0 2)\n | T # 0\n ;\nT : T '*' F # mul (0 2)\n | F # 0\n ;\nF : 'a' # 0\n | '(' E ')' # 1\n ;\n"};
-    int f = (int)cs.P("longfam") % 3;
+        "TERM;\nE : E '+' T # plus (0 2)\n | T # 0\n ;\nT : T '*' F # mul (0 2)\n | F # 0\n ;\nF : 'a' # 0\n | '(' E ')' # 1\n ;\n",
+        // ambiguous, all parses, 5-24 operands: ambiguity spanning dozens of tokens (distance-indexed vectors grow inside one set)
+        "TERM;\nE : E '+' E # plus (0 2)\n | E '*' E # mul (0 2)\n | 'a' # 0\n ;\n"};
+    int f = (int)cs.P("longfam") % 4;
     long n = cs.P("longlen");
+    if (f == 3) n = 5 + n % 20;
+    if (f == 1 && n > 12000) n = 12000; // right recursion: the sets grow with the input (quadratic memory)
     std::vector<int> codes;
     if (f < 2) codes.assign(n, 'a');
     else { for (long i = 0; i < n; i++) { codes.push_back('a'); if (i + 1 < n) codes.push_back(i % 7 == 3 ? '*' : '+'); } }
@@ -390,7 +402,7 @@ std::vector<std::string> transcribe(const Case &cs, Binding *(*mk)(), long *cont
     GramDef gd; gd.use_text = true; gd.text = fam[f]; gd.strict = 1;
     long before = g_lib.n_requests;
     int rc = defineGrammar(*b, gd);
-    Conf cf; cf.la = (int)cs.P("longla"); cf.one = 1; cf.rec = 1; cf.match = 3;
+    Conf cf; cf.la = (int)cs.P("longla"); cf.one = f == 3 ? 0 : 1; cf.rec = 1; cf.match = 3;
     ParseOpts po; po.analyse_tree = false; po.free_tree = false; po.keep_tracking = false;
     Outcome o = runParse(*b, codes, cf, po);
     if (containerGrowth) *containerGrowth = g_lib.n_requests - before;
@@ -419,8 +431,12 @@ Verdict runC16(const Case &cs) {
   long growC = 0, growX = 0;
   long base = g_lib.live_blocks;
   std::vector<std::string> a = transcribe(cs, newCBinding, &growC);
+  // a parse that the harness's cap on live library memory cut short (right-recursive list of tens of thousands of tokens:
+  // Earley sets of linear size) says nothing about the two interfaces
+  if (g_lib.cap_hits) { v.st = V_DISCARD; v.labels.insert("discard:memory-cap"); return v; }
   if (g_lib.live_blocks != base) { v.fail("C interface: library holds memory after the history"); return v; }
   std::vector<std::string> b = transcribe(cs, newXBinding, &growX);
+  if (g_lib.cap_hits) { v.st = V_DISCARD; v.labels.insert("discard:memory-cap"); return v; }
   if (g_lib.live_blocks != base) { v.fail("C++ interface: library holds " + std::to_string(g_lib.live_blocks - base) + " blocks after the same history (the C interface holds none)"); return v; }
   v.parses = a.size() + b.size();
   if (a.size() != b.size()) { v.fail("transcripts of different length"); return v; }
